@@ -230,6 +230,12 @@ class Script:
         row.update({"ev": "q", "file": self.nfile, "qid": qid if qid is not None else self.nq, "q": q, "tag": tag, "reps": reps})
         self.rows.append(row)
 
+    def freq(self, q, c, n, tag="freq"):
+        self.nq += 1
+        row = dict(c)
+        row.update({"ev": "freq", "file": self.nfile, "qid": self.nq, "q": q, "tag": tag, "reps": n})
+        self.rows.append(row)
+
     def loc(self, kind, qname, rip=None, ecs=None, tag=""):
         self.nq += 1
         if ecs:
@@ -247,13 +253,13 @@ class Script:
         vlib.write_ndjson(path, self.rows)
 
 
-def run_sem(script, label, backends="cdb,cdbsep,v1,v2", env=None, timeout=3000):
+def run_sem(script, label, backends="cdb,cdbsep,v1,v2", env=None, timeout=3000, race=False, extra=()):
     """run the driver on the script; returns (trace path, info dict)"""
     os.makedirs(vlib.OUT, exist_ok=True)
     inp = os.path.join(vlib.OUT, "%s-in.ndjson" % label)
     out = os.path.join(vlib.OUT, "%s-trace.ndjson" % label)
     script.write(inp)
-    p = vlib.run_vh(["sem", "-in", inp, "-out", out, "-backends", backends], env=env, timeout=timeout)
+    p = vlib.run_vh(["sem", "-in", inp, "-out", out, "-backends", backends] + list(extra), env=env, timeout=timeout, race=race)
     info = json.loads(p.stdout.strip().splitlines()[-1])
     return out, info
 
